@@ -1158,6 +1158,8 @@ class DAG(nx.DiGraph):
             bn = self
         else:
             bn = BayesianNetwork(self.edges())
+            # Building from the edge list alone would lose the nodes without any edge.
+            bn.add_nodes_from(self.nodes())
 
         if estimator is None:
             estimator = MaximumLikelihoodEstimator
